@@ -485,6 +485,11 @@ bool Parser::get_line(std::string& line, NewLine* newline)
 {
     if (!m_file.get_line(line, newline))
         return false;
+
+    // The last line of a patch is as much of a line as any other if the newline at the end of the patch
+    // went missing. Only a line which says so is to end without one.
+    if (newline && *newline == NewLine::None)
+        *newline = NewLine::LF;
     ++m_line_number;
     return true;
 }
@@ -862,8 +867,7 @@ void Parser::parse_context_hunk(std::vector<PatchLine>& old_lines, LineNumber& o
             throw std::runtime_error("Could not parse expected range!");
 
         auto pos = m_file.tellg();
-        get_line(line, &newline);
-        if (m_file.eof())
+        if (!get_line(line, &newline))
             return;
 
         // Check if we have a 'to-file' that has been omitted, and we have reached the next patch.
